@@ -26,6 +26,20 @@ def gen_team_name(rng, forbid=()):
             n = rng.randint(1, 4)
             name = ''.join(rng.choice(UNICODE_BITS + list('abc XY')) for _ in range(n)).strip() \
                 or 'Ü'
+        if rng.random() < 0.12:
+            # blanks are part of a quoted name: runs of spaces, a tab, leading / trailing blanks
+            # must come back exactly as announced
+            w = rng.choice(('double', 'tab', 'trail', 'lead', 'both'))
+            if w == 'double':
+                name = name + '  ' + rng.choice('AbZ9')
+            elif w == 'tab':
+                name = name + '\t' + rng.choice('AbZ9')
+            elif w == 'trail':
+                name = name + ' ' * rng.randint(1, 3)
+            elif w == 'lead':
+                name = ' ' * rng.randint(1, 2) + name
+            else:
+                name = ' ' + name + '  '
         if name not in forbid:
             return name
 
